@@ -35,7 +35,7 @@ B = 1000
 REQUIRED_BUCKETS = ["stream-begins-more-than-50-samples-after-another", "3phase-phases-begin-at-different-timestamps", "kind:flat", "kind:composed", "kind:3phase", "kind:fallback-term", "different-first-timestamps", "reader-late",
                     "reader-before-data", "burst>=20", "second-reader", "lagging-stream>=20",
                     "stream-seconds-behind-the-others", "streams-stamped-in-different-time-zones", "sub-second-input-step",
-                    "streams-begin-whole-days-apart", "stream-without-samples-for-some-timestamps-mid-run"]
+                    "streams-begin-whole-days-apart", "stream-without-samples-for-some-timestamps-mid-run", "input-stream-closed-while-the-others-go-on"]
 REQUIRED_COUNTERS = ["outputs_decoded", "schedules_run"]
 ASSUMPTIONS = ["all streams carry one sample per index (missing values are C13/C19)"]
 
@@ -105,7 +105,12 @@ def gen(rng: Any, tier: str, i: int) -> Any:
         # every other output is still computed from inputs of its own timestamp
         k0 = rng.randint(max(first) + 3, N - 8)
         hole = [rng.randrange(n), k0, k0 + rng.randint(0, 2)]
-    return {"hole": hole, "rx_limit": rx_limit, "step": step, "tzmix": rng.random() < 0.25, "kind": kind, "n": n, "groups": groups, "first": first, "N": N, "steps": steps,
+    close = None
+    if hole is None and n >= 2 and kind == "flat" and rng.random() < 0.12 and N - max(first) >= 14:
+        # one input stream ends (its channel is closed) while the others keep delivering: from then on no output can be
+        # computed - in particular none is repeated
+        close = [rng.randrange(n), rng.randint(max(first) + 3, N - 6)]
+    return {"close": close, "hole": hole, "rx_limit": rx_limit, "step": step, "tzmix": rng.random() < 0.25, "kind": kind, "n": n, "groups": groups, "first": first, "N": N, "steps": steps,
             "reader_at": rng.choice([0, 0, 3, 10, 50]), "second_reader_at": rng.choice([None, 20, 60, 150])}
 
 
@@ -150,7 +155,15 @@ async def _drive(case: dict[str, Any], out: dict[str, Any]) -> None:
 
     hole = case.get("hole")
 
+    close = case.get("close")
+    closed = [False]
+
     def _in_hole(i: int, k: int) -> bool:
+        if close is not None and i == close[0] and k >= close[1]:
+            if not closed[0]:
+                closed[0] = True
+                asyncio.ensure_future(chans[i].close())
+            return True
         return hole is not None and i == hole[0] and hole[1] <= k <= hole[2]
 
     nxt = list(case["first"])
@@ -319,8 +332,13 @@ def check(case: dict[str, Any], rec: Any) -> None:
             rec.violation("first-output-is-not-the-alignment-point", {**w2, "alignment_point": align})
         if ks[0] < align:
             rec.violation("output-before-all-streams-available", {**w2, "alignment_point": align})
-        if ks[-1] != N - 1:
-            rec.violation("last-complete-round-not-emitted-at-quiescence", w2)
+        last_expected = N - 1 if not case.get("close") else case["close"][1] - 1
+        if case.get("close"):
+            rec.bucket("input-stream-closed-while-the-others-go-on")
+            w2["stream_closed_before_index"] = case["close"][1]
+        if ks[-1] != last_expected:
+            rec.violation("last-complete-round-not-emitted-at-quiescence" if ks[-1] < last_expected
+                          else "output-for-a-timestamp-an-input-has-no-sample-for", w2)
         if name == "main":
             rec.nontrivial(n >= 2 and len(ks) >= 10)
             rec.observed({"first": first, "alignment_point": align, "outputs": len(ks), "first_output": ks[0],
